@@ -177,6 +177,39 @@ func ruleC11LazyOnce(p *Prog, a *Anchors, r *Report) {
 					}
 					return false
 				})
+				// the table is the node's own (kept under the node, not under a key all tags share) and keyed by the very
+				// name that is loaded: a table shared by tags of different directories and keyed by the name as written
+				// hands one tag the file another one resolved
+				if miss {
+					name := ci.Common().Args[len(ci.Common().Args)-1]
+					if len(ci.Common().Args) >= 2 {
+						name = ci.Common().Args[1]
+					}
+					sameKey, ownTable := false, false
+					for _, bb := range f.Blocks {
+						for _, x := range bb.Instrs {
+							if lk, isLk := x.(*ssa.Lookup); isLk && Dominates(x, in) {
+								if _, isMap := lk.X.Type().Underlying().(*types.Map); isMap && (lk.Index == name || p.VN(lk.Index) == p.VN(name)) {
+									sameKey = true
+								}
+							}
+							if c, isC := x.(*ssa.Call); isC && c.Common().StaticCallee() != nil && c11ReadsNodeState(c.Common().StaticCallee()) && len(c.Common().Args) >= 2 {
+								arg := c.Common().Args[1]
+								if mi, isMI := arg.(*ssa.MakeInterface); isMI {
+									arg = mi.X
+								}
+								if len(f.Params) > 0 && unspillParam(stripLoad(arg)) == ssa.Value(f.Params[0]) {
+									ownTable = true
+								}
+							}
+						}
+					}
+					if !sameKey || !ownTable {
+						r.Bad(key+":keyed-by-loaded-name", p.InstrPos(in), "the table of loaded templates is looked up by something else than the name that is loaded (same key: %v) or is not the node's own (kept under the node: %v): include tags written in templates of different directories share entries, and a relative name resolves to the file the FIRST tag found", sameKey, ownTable)
+					} else {
+						r.OK(key+":keyed-by-loaded-name", p.InstrPos(in), "the node's own table, keyed by the name that is loaded")
+					}
+				}
 				if miss {
 					r.OK(key, p.InstrPos(in), "the template is loaded only when this rendering has not loaded it for this node before")
 				} else {
